@@ -174,45 +174,67 @@ def run(chk, repo):
             ok = loop is not None and unparse(loop.iter) == 'enumerate(seq)' and names <= {unparse(loop.target.elts[0])}
             chk.ob('C20.d', f"'{norm_stmt(repo.enclosing_stmt(st))[:60]}': enumerate index", repo.loc(ffi, st), ok,
                    'a value other than the enumerate index of seq is appended to fixed_indices', key=ffi.qual + f"::append::{unparse(val)}", fn=ffi.qual)
-    # nterm / cterm / pattern tests
-    t = unparse(ffi.node)
-    ok = 'if i == 0 and self.keep_peptide_nterm:' in t and 'if i == len(seq) - 1 and self.keep_peptide_cterm:' in t and 'if it in self.non_shuffle_pattern:' in t
-    chk.ob('C20.d', 'N-term = index 0, C-term = index len-1, listed residues by membership', ffi.where, ok,
-           'terminal / pattern fixed-position tests altered', key=ffi.qual + '::terminal-tests', fn=ffi.qual)
+    # nterm / cterm / pattern tests: the condition under which the enumerate index is pinned, as a boolean function (truth table)
+    from sa import sem as _s20
+    eloop = [l for l in walk_no_nested(ffi.node) if isinstance(l, ast.For) and isinstance(l.iter, ast.Call) and call_name(l.iter) == 'enumerate'
+             and isinstance(l.target, ast.Tuple) and len(l.target.elts) == 2 and all(isinstance(e, ast.Name) for e in l.target.elts)]
+    if len(eloop) != 1:
+        raise AnalysisError(f"anchor={ffi.qual}: the enumerate loop over the sequence not found")
+    iv, rv = (e.id for e in eloop[0].target.elts)
+    sq = unparse(eloop[0].iter.args[0])
+
+    def pins_index(st):
+        return isinstance(st, ast.Expr) and isinstance(st.value, ast.Call) and isinstance(st.value.func, ast.Attribute) and st.value.func.attr in ('append', 'add') \
+            and unparse(st.value.func.value) == 'fixed_indices' and len(st.value.args) == 1 and unparse(st.value.args[0]) == iv
+    ec = _s20.emit_condition(ffi.node, eloop[0].body, pins_index)
+    want_t = ast.parse(f"({iv} == 0 and self.keep_peptide_nterm) or ({iv} == len({sq}) - 1 and self.keep_peptide_cterm) or ({rv} in self.non_shuffle_pattern)", mode='eval').body
+    if ec is None:
+        chk.undecided('C20.d', 'N-term = index 0, C-term = index len-1, listed residues by membership', ffi.where, 'the pinning loop contains a construct that is not understood', key=ffi.qual + '::terminal-tests', fn=ffi.qual)
+    else:
+        eqv, wit = _s20.tt_equal(ec[0], want_t)
+        chk.ob('C20.d', 'N-term = index 0, C-term = index len-1, listed residues by membership', ffi.where, eqv is True,
+               f"terminal / pattern fixed-position tests altered: the index is pinned under `{unparse(ec[0])[:200]}`, which differs from (first residue and keep-nterm) or "
+               f"(last residue and keep-cterm) or (listed residue) when {sorted(k for k, v in (wit or {}).items() if v) if isinstance(wit, dict) else wit} hold",
+               key=ffi.qual + '::terminal-tests', fn=ffi.qual)
 
     # ------------------------------------------------------------------ e
     chk.rule('C20.e', 'rearrangement loop can emit several fixed residues in a row (a fixed emission does not consume a movable element)', 2)
+    from sa import sem as _se20
+    from sa.affine import simple_aff, Aff
+    from sa.canon import _Expr as _CanonExpr20
+    shape = {}
     for nm in ('reverse_sequence', 'shuffle_sequence'):
         f = repo.func(D + nm)
         chk.uses(f)
         fcfg = CFG(f.node)
-        # the permuted list of movable indices
-        perm = None
-        for n in walk_no_nested(f.node):
-            if isinstance(n, ast.Assign) and isinstance(n.targets[0], ast.Name) and isinstance(n.value, ast.Call) and \
-                    (call_name(n.value) == 'sample' or 'reversed' in unparse(n.value)):
-                perm = n.targets[0].id
-        loops = [n for n in walk_no_nested(f.node) if isinstance(n, (ast.While, ast.For))
-                 and any(call_name(c) == 'append' and perm and perm in unparse(c) for c in G.find_calls(n))]
+        SEQ = f.params()[0] if f.params() else 'seq'
+        # OUT: the list that is joined into the returned sequence;  PERM / cur: `OUT.append(SEQ[PERM[cur]])`
+        perm = cur = out_n = None
+        mov_calls = []
+        for c in G.find_calls(f.node, 'append'):
+            if len(c.args) == 1 and isinstance(c.args[0], ast.Subscript) and unparse(c.args[0].value) == SEQ and isinstance(c.args[0].slice, ast.Subscript) \
+                    and isinstance(c.args[0].slice.value, ast.Name):
+                mov_calls.append(c)
+        if len(mov_calls) == 1:
+            perm, cur, out_n = mov_calls[0].args[0].slice.value.id, unparse(mov_calls[0].args[0].slice.slice), unparse(mov_calls[0].func.value)
+        loops = [n for n in walk_no_nested(f.node) if isinstance(n, (ast.While, ast.For)) and mov_calls and any(x is mov_calls[0] for x in ast.walk(n))]
+        shape[nm] = (SEQ, out_n, perm)
         if perm is None or not loops:
-            chk.ob('C20.e', f"{nm}: rearrangement loop found", f.where, False, 'cannot find the loop that emits the permuted movable residues',
-                   key=f.qual + '::loop', fn=f.qual)
+            chk.undecided('C20.e', f"{nm}: rearrangement loop found", f.where, 'cannot find the loop that emits the permuted movable residues (`out.append(seq[perm[k]])`)',
+                          key=f.qual + '::loop', fn=f.qual)
             continue
         loop = loops[0]
 
-        def is_fixed_emit(n):
-            return n.kind == 'stmt' and any(call_name(c) == 'append' and perm not in unparse(c) and 'seq[' in unparse(c) for c in G.find_calls(n.ast))
-
         def is_movable_emit(n):
-            return n.kind == 'stmt' and any(call_name(c) == 'append' and perm in unparse(c) for c in G.find_calls(n.ast))
+            return n.kind == 'stmt' and any(x is mov_calls[0] for x in ast.walk(n.ast))
+
+        def is_fixed_emit(n):
+            return n.kind == 'stmt' and not is_movable_emit(n) and any(
+                call_name(c) == 'append' and unparse(c.func.value) == out_n and len(c.args) == 1 and isinstance(c.args[0], ast.Subscript)
+                and unparse(c.args[0].value) == SEQ for c in G.find_calls(n.ast))
         ok = False
         detail = ''
         if isinstance(loop, ast.While):
-            m = [c for c in G.find_calls(loop) if call_name(c) == 'append' and perm in unparse(c)]
-            cur = None
-            for sub in ast.walk(m[0]):
-                if isinstance(sub, ast.Subscript) and unparse(sub.value) == perm:
-                    cur = unparse(sub.slice)
             ps = iteration_paths(fcfg, loop, loop_bound=2, max_paths=2000)
             chk.paths += len(ps)
             for p in ps:
@@ -220,12 +242,13 @@ def run(chk, repo):
                     continue
                 fixed = p.count(is_fixed_emit)
                 mov = p.count(is_movable_emit)
-                adv = p.count(lambda n: n.kind == 'stmt' and isinstance(n.ast, ast.AugAssign) and unparse(n.ast.target) == cur)
+                adv = p.count(lambda n: n.kind == 'stmt' and isinstance(n.ast, (ast.AugAssign, ast.Assign)) and
+                              unparse(n.ast.target if isinstance(n.ast, ast.AugAssign) else n.ast.targets[0]) == cur)
                 if fixed >= 1 and mov == 0 and adv == 0:
                     ok = True
             detail = f"no iteration path of the while loop emits a fixed residue without advancing the movable cursor '{cur}'"
         inner = [n for n in walk_no_nested(loop) if n is not loop and isinstance(n, (ast.While, ast.For))
-                 and any(call_name(c) == 'append' and perm not in unparse(c) for c in G.find_calls(n))]
+                 and any(is_fixed_emit(type('N', (), {'kind': 'stmt', 'ast': st_})) for st_ in ast.walk(n) if isinstance(st_, ast.stmt) and _se20.own_stmt(st_))]
         if inner:
             ok = True
         if isinstance(loop, ast.For) and not inner:
@@ -235,28 +258,39 @@ def run(chk, repo):
                key=f.qual + '::consecutive-fixed', fn=f.qual)
 
     # ------------------------------------------------------------------ f
-    from sa.affine import simple_aff, Aff
     chk.rule('C20.f', 'R-AFFINE-EQV: the tail fill appends exactly len(seq) - len(decoy) residues (decoy length == target length)', 2)
     for nm in ('reverse_sequence', 'shuffle_sequence'):
         f = repo.func(D + nm)
-        fills = [n for n in walk_no_nested(f.node) if isinstance(n, ast.If) and len(n.test.ops if isinstance(n.test, ast.Compare) else []) == 1
-                 and isinstance(n.test.ops[0], ast.Lt) and call_name(n.test.left) == 'len' and call_name(n.test.comparators[0]) == 'len']
+        SEQ, out_n, _perm = shape[nm]
         ok = False
         detail = 'tail fill `if len(decoy) < len(seq)` not found'
-        if len(fills) == 1:
-            out_l, seq_l = unparse(fills[0].test.left), unparse(fills[0].test.comparators[0])     # len(shuffled_seq), len(seq)
-            out_n, seq_n = unparse(fills[0].test.left.args[0]), unparse(fills[0].test.comparators[0].args[0])
-            sl = [x for st in fills[0].body for x in ast.walk(st) if isinstance(x, ast.Subscript) and isinstance(x.slice, ast.Slice) and unparse(x.value) == seq_n]
-            aug = [st for st in fills[0].body if isinstance(st, ast.AugAssign) and unparse(st.target) == out_n] + \
-                  [st for st in fills[0].body if isinstance(st, ast.Expr) and call_name(st.value) == 'extend' and unparse(st.value.func.value) == out_n]
-            if len(sl) == 1 and len(aug) == 1 and sl[0].slice.upper is None and sl[0].slice.step is None and sl[0].slice.lower is not None:
-                lo = simple_aff(sl[0].slice.lower)
-                A, N = Aff.sym(out_l), Aff.sym(seq_l)
-                # under the guard A < N:  seq[A - N:] (negative index) and seq[A:] both have N - A elements
-                ok = lo is not None and (lo == A - N or lo == A)
-                detail = f"the fill appends `{unparse(sl[0])}` whose lower bound is {lo}; only {A - N} (from the end) or {A} make its length len(seq) - len(decoy)"
-            else:
-                detail = 'tail fill is not a single slice of the target appended to the decoy'
+        fills = []
+        if out_n is not None:
+            A, N = Aff.sym(f"len({out_n})"), Aff.sym(f"len({SEQ})")
+            ch20 = _se20.block_chains(f.node)
+            for n in walk_no_nested(f.node):
+                if isinstance(n, ast.If) and isinstance(n.test, ast.Compare) and len(n.test.ops) == 1 and not n.orelse:
+                    l_ = simple_aff(_se20.expand_names(f.node, n, n.test.left, chains=ch20, allow_calls=('len',), keep=(SEQ, out_n)))
+                    r_ = simple_aff(_se20.expand_names(f.node, n, n.test.comparators[0], chains=ch20, allow_calls=('len',), keep=(SEQ, out_n)))
+                    if l_ is None or r_ is None:
+                        continue
+                    d_, op = l_ - r_, type(n.test.ops[0]).__name__
+                    # len(OUT) < len(SEQ) in any affine spelling
+                    if (op == 'Lt' and d_ == A - N) or (op == 'Gt' and d_ == N - A) or (op == 'LtE' and d_ == A - N + 1) or (op == 'GtE' and d_ == N - A - 1) \
+                            or (op == 'NotEq' and d_ in (A - N, N - A)):
+                        fills.append(n)
+            if len(fills) == 1:
+                body = fills[0].body
+                sl = [x for st in body for x in ast.walk(st) if isinstance(x, ast.Subscript) and isinstance(x.slice, ast.Slice) and unparse(x.value) == SEQ]
+                aug = [st for st in body if isinstance(st, ast.AugAssign) and unparse(st.target) == out_n and isinstance(st.op, ast.Add)] + \
+                      [st for st in body if isinstance(st, ast.Expr) and call_name(st.value) == 'extend' and unparse(st.value.func.value) == out_n]
+                if len(sl) == 1 and len(aug) == 1 and len(body) == 1 and sl[0].slice.upper is None and sl[0].slice.step is None and sl[0].slice.lower is not None:
+                    lo = simple_aff(_se20.expand_names(f.node, aug[0], sl[0].slice.lower, chains=ch20, allow_calls=('len',), keep=(SEQ, out_n)))
+                    # under the guard A < N:  seq[A - N:] (negative index) and seq[A:] both have N - A elements
+                    ok = lo is not None and (lo == A - N or lo == A)
+                    detail = f"the fill appends `{unparse(sl[0])}` whose lower bound is {lo}; only {A - N} (from the end) or {A} make its length len(seq) - len(decoy)"
+                else:
+                    detail = 'tail fill is not a single slice of the target appended to the decoy'
         chk.ob('C20.f', f"{nm}: after the tail fill the decoy has len(seq) residues", repo.loc(f, fills[0]) if fills else f.where, ok,
                f"{nm}: {detail}: with duplicated or out-of-range fixed indices the count of list entries differs from the number of missing residues, so the decoy "
                "gains / loses residues and is no longer a rearrangement of the target", key=f.qual + '::tail-fill', fn=f.qual)
